@@ -220,9 +220,27 @@ pub fn ball_pivot_with_centers_2d(
 
             for pi in circles[working_index].intersections_with(&circles[*ni]) {
                 let di = pi - points[working_index];
-                let angle = directed_angle(&direction, &di, pivot_direction);
-                if angle < 1e-6 || (came_from && angle > TAU - 1e-6) {
-                    continue;
+                let mut angle = directed_angle(&direction, &di, pivot_direction);
+                if angle < 1e-6 || angle > TAU - 1e-6 {
+                    // The ball touches this neighbor where it is right now
+                    if came_from {
+                        continue;
+                    }
+
+                    // Simultaneous contact with a third point. Contacts are met one after the
+                    // other against the pivot direction when seen from the ball center: if this
+                    // one lies ahead of the working point the ball must move on to it without
+                    // turning, or it would sweep over it. If it lies behind it is already passed.
+                    let center = points[working_index] + direction * radius;
+                    let ahead = directed_angle(
+                        &(points[working_index] - center),
+                        &(points[*ni] - center),
+                        pivot_direction.opposite(),
+                    );
+                    if !(1e-6..PI).contains(&ahead) {
+                        continue;
+                    }
+                    angle = 0.0;
                 }
 
                 let pivot = PivotPoint::new(*ni, pi, angle);
